@@ -171,6 +171,7 @@ def check_writes(run: Run, scratch: Path, model, table):
     stats = Counter()
     injected = set()
     zip_append_seen = set()
+    tm = {"t0": time.time()}
     with ctx.Pool(WORKERS, initializer=_init_worker) as pool:
         # phase 1: dry runs discover the boundaries and the new content
         dry = pool.map(D.execute, [(c, pre, 0, "dry", str(work)) for c in cases for pre in ("absent", "Old")], chunksize=1)
@@ -190,21 +191,26 @@ def check_writes(run: Run, scratch: Path, model, table):
                 if run.tier == "quick" and r["case"].target == "zip":
                     # quick: zip targets with one one-shot and one persistent variant per boundary, no second-level kills
                     variants = [variants[0], variants[-1]]
-                variants = variants + D.interrupt_variants(r["events"][k - 1]["role"])
+                intr = D.interrupt_variants(r["events"][k - 1]["role"])
+                variants = variants + (intr[:1] if run.tier == "quick" and r["case"].target == "zip" else intr)
                 for v in variants:
                     jobs.append((r["case"], r["pre"], k, "fault", str(work), v))
+        tm["dry"] = time.time()
         first = pool.map(D.execute, jobs, chunksize=2)
+        tm["first"] = time.time()
         # second level: the process dies while an injected (one-shot) fault is being handled, at every boundary
         # the faulted run makes after the fault (handler / fallback / retry calls)
         jobs2 = []
         for r in first:
-            if run.tier == "quick" and r["case"].target == "zip":
-                continue
+            if run.tier == "quick" and (r["case"].target == "zip" or (r["variant"] or "").split(":")[0] in ("EACCES", "ENOENT")):
+                continue  # quick: second-level kills after EIO / ENOSPC faults of the plain targets only
             if r["mode"] == "fault" and r["variant"].endswith(":once") and r["status"] == "exited" and not D.is_interrupt(r["variant"]):
                 for e in r["events"]:
                     if e["i"] > r["k"]:
                         jobs2.append((r["case"], r["pre"], r["k"], "fault", str(work), f"{r['variant']}:kill@{e['i']}"))
         results = dry + first + pool.map(D.execute, jobs2, chunksize=2)
+        tm["second"] = time.time()
+    tm["pool_exit"] = time.time()
     for r in results:
         c = r["case"]
         out = D.outcome(r, newp.get(c))
@@ -258,7 +264,11 @@ def check_writes(run: Run, scratch: Path, model, table):
         if r["mode"] != "dry" and c.writer in ("aln", "tree", "table") and r["k"] in (5, 8):
             run.sample({"call": c.name, "pre": r["pre"], "mode": r["mode"], "fault": r["variant"], "at": detail["boundary_call"], "how": out["how"], "dest": out["dest"], "tmp": out["tmp"], "ok": ok}, limit=8)
     # ---- code -> spec
+    tm["judged"] = t_tr = time.time()
+    ks = list(tm)
+    run.note("wall_s_write_phases", {ks[i]: round(tm[ks[i]] - tm[ks[i - 1]], 1) for i in range(1, len(ks))})
     validate_traces(run, scratch, traces, trace_sample, stats)
+    run.note("wall_s_trace_validation", round(time.time() - t_tr, 1))
     # ---- the model's counterexamples must exist in the real code
     pred = predicted_bad([r for r in model if r["from"]["cfg"] in ("seqfmt", "with", "table")])
     missing = [list(k) + [v] for k, v in sorted(pred.items()) if k not in observed_bad]
